@@ -647,6 +647,84 @@ mod tests {
             }
         }
     }
+    /// TIFF predictor 2 vectors worked out by hand from TIFF 6.0 section 14 (each sample minus
+    /// the sample of the same component one pixel to the left, modulo 2^bpc; first pixel kept).
+    #[test]
+    fn tiff_predictor_hand_vectors() {
+        let rgb8 = PredParams { predictor: 2, colors: 3, bpc: 8, columns: 2 };
+        assert_eq!(tiff_predict_encode(&[10, 20, 30, 15, 25, 35, 200, 0, 5, 100, 255, 5], &rgb8), vec![10, 20, 30, 5, 5, 5, 200, 0, 5, 156, 255, 0]);
+        let g4 = PredParams { predictor: 2, colors: 1, bpc: 4, columns: 4 };
+        assert_eq!(tiff_predict_encode(&[0x13, 0x62], &g4), vec![0x12, 0x3C]); // 1,3,6,2 -> 1,2,3,12
+        let g16 = PredParams { predictor: 2, colors: 1, bpc: 16, columns: 2 };
+        assert_eq!(tiff_predict_encode(&[0x01, 0x00, 0x00, 0xFF], &g16), vec![0x01, 0x00, 0xFF, 0xFF]);
+        let g1 = PredParams { predictor: 2, colors: 1, bpc: 1, columns: 8 };
+        assert_eq!(tiff_predict_encode(&[0b1011_0010], &g1), vec![0b1110_1011]); // xor with the left neighbour
+        for (p, e) in [(rgb8, vec![10u8, 20, 30, 5, 5, 5]), (g4, vec![0x12, 0x3C]), (g16, vec![1, 0, 0xFF, 0xFF]), (g1, vec![0b1110_1011])] {
+            assert_eq!(tiff_predict_encode(&tiff_predict_decode(&e, &p), &p), e);
+        }
+    }
+
+    fn png_file(width: u32, height: u32, bit_depth: u8, color_type: u8, filtered_rows: &[u8]) -> Vec<u8> {
+        fn chunk(out: &mut Vec<u8>, kind: &[u8; 4], body: &[u8]) {
+            out.extend_from_slice(&(body.len() as u32).to_be_bytes());
+            let mut crc = flate2::Crc::new();
+            crc.update(kind);
+            crc.update(body);
+            out.extend_from_slice(kind);
+            out.extend_from_slice(body);
+            out.extend_from_slice(&crc.sum().to_be_bytes());
+        }
+        let mut out = b"\x89PNG\r\n\x1a\n".to_vec();
+        let mut ihdr = Vec::new();
+        ihdr.extend_from_slice(&width.to_be_bytes());
+        ihdr.extend_from_slice(&height.to_be_bytes());
+        ihdr.extend_from_slice(&[bit_depth, color_type, 0, 0, 0]);
+        chunk(&mut out, b"IHDR", &ihdr);
+        chunk(&mut out, b"IDAT", &flate_encode(filtered_rows));
+        chunk(&mut out, b"IEND", &[]);
+        out
+    }
+
+    /// The PNG row filters (what /Predictor 10..15 undoes) against the third-party `png` decoder:
+    /// rows filtered by `png_predict_encode`, wrapped into a PNG file, must decode to the data.
+    #[test]
+    fn png_filters_against_png_crate() {
+        let mut cells = 0;
+        for (colors, color_type, depths) in [(1usize, 0u8, &[1usize, 2, 4, 8, 16][..]), (3, 2, &[8, 16][..]), (2, 4, &[8, 16][..]), (4, 6, &[8, 16][..])] {
+            for &bpc in depths {
+                for columns in [1usize, 2, 3, 5, 8, 9, 17] {
+                    let p = PredParams { predictor: 15, colors, bpc, columns };
+                    let rb = p.row_bytes();
+                    let rows = 3;
+                    let mut d = pat(rb * rows, 3);
+                    let pad = rb * 8 - colors * bpc * columns;
+                    for r in 0..rows {
+                        d[(r + 1) * rb - 1] &= (0xFFu16 << pad) as u8;
+                    }
+                    // a row's filter acts on the *data* of the row above, not on its filter type,
+                    // so every type on every row position with three companions is enough
+                    for t0 in 0..5u8 {
+                        for step in 0..3u8 {
+                            {
+                                let tags = [t0, (t0 + step) % 5, (t0 + 2 * step) % 5];
+                                let enc = png_predict_encode(&d, &p, &|r| tags[r]);
+                                let file = png_file(columns as u32, rows as u32, bpc as u8, color_type, &enc);
+                                let mut dec = png::Decoder::new(std::io::Cursor::new(file));
+                                dec.set_transformations(png::Transformations::IDENTITY);
+                                let mut reader = dec.read_info().expect("png header");
+                                let mut buf = vec![0u8; reader.output_buffer_size().expect("size")];
+                                let info = reader.next_frame(&mut buf).expect("png frame");
+                                assert_eq!(&buf[..info.buffer_size()], &d[..], "colors={colors} bpc={bpc} columns={columns} tags={tags:?}");
+                                cells += 1;
+                            }
+                        }
+                    }
+                }
+            }
+        }
+        assert_eq!(cells, 11 * 7 * 15);
+    }
+
     #[test]
     fn predictors_roundtrip() {
         for colors in 1..=4 {
